@@ -466,4 +466,27 @@ theorem inlSpec_pmapW : Block.InlSpec true PMapW := by
     simp at this
     omega
 
+/-! ## witnesses: `Block.Geo` is too weak for the full claim -/
+
+/-- `exWeak`: two "lines" `(0,1)`, `(1,2)` of `"ab"` that touch (`lineEnd = next lineStart`: allowed
+    by `Block.Sorted`, every entry `LineOk`): the table of `get_lines` is `[(0,0),(2,1)]` — the second
+    line starts, in the source, BEFORE the end of the inline text of the first (`0 + 2 > 1`):
+    neither `MonoMapV` nor `MonoMap`.  Real tables have a terminator between two lines (`OrderD 0`). -/
+example : getLines ['a', 'b'] [⟨0, 1, 0, 0⟩, ⟨1, 2, 1, 0⟩] 0 2 0 false
+      = .ok (['a', '\n', 'b'], [(0, 0), (2, 1)]) ∧ ¬ (0 + (2 - 0) ≤ 1 ∨ 0 = 1) := by decide +kernel
+
+/-- `exLead`: `"ab c"` as ONE line with `first_nonspace = 3`, `indent_nonspace = 3` (a `Block.Geo`
+    entry: `indent ≤ 4 · 3`), `blk_indent = 0`: `get_lines` walks back three columns over `"ab "`,
+    the content is `"ab c"` mapped at 0, `trim_src` starts at 0, and `tr 0 = 0 < 3 = first_nonspace`.
+    In a real state the columns beyond `blk_indent` are blanks (`C05I.KeptBlank`). -/
+example : getLines ['a', 'b', ' ', 'c'] [⟨0, 4, 3, 3⟩] 0 1 0 false = .ok (['a', 'b', ' ', 'c'], [(0, 0)]) ∧
+    Inline.trimSrc ['a', 'b', ' ', 'c'] = (0, 4) ∧ getSourcePosFor [(0, 0)] 0 = .ok 0 := by decide +kernel
+
+/-- non-vacuity of `getLines_table`: the table of `"- a\n\n \tb"`, line 2 at indent 2 (split tab) -/
+example : C05.WFMap (mapOf 2 0 [(⟨5, 8, 7, 4⟩, ([' ', '\t'], ['b'], 4))]) ∧
+    ¬ NoVirt (mapOf 2 0 [(⟨5, 8, 7, 4⟩, ([' ', '\t'], ['b'], 4))]) := by
+  refine ⟨⟨⟨7, [(2, 7)], by decide⟩, by decide⟩, ?_⟩
+  intro h
+  exact h 0 0 7 2 7 (by decide) (by decide) rfl
+
 end MdIt.C05I
